@@ -1271,9 +1271,12 @@ class PTable(EngineBase):
                         if not stayed:
                             continue
                         flagged = pid in st["flagged"]
+                        # (objects yielded before a cache_clear() cannot
+                        # be in psutil's cache any more)
                         stale = any(
                             o.pid == pid and inc is not None and
-                            inc != lst[pid][0]
+                            inc != lst[pid][0] and
+                            id(o) not in st["pre_clear"]
                             for (o, inc) in st["obj_inc"].values())
                         self._V(st, "C04.iter_missing", (
                             ["flagged_recycled"] if flagged else []) +
